@@ -432,7 +432,9 @@ def main_pipeline(mod, ctx):
             seen.add(c["key"])
             violations += 1
             path = os.path.join(rdir, f"{pid}-{ctx.tier}-{ctx.seed}-{violations}.json")
-            write_json(path, dict(property=pid, kind="counterexample", seed=ctx.seed, tier=ctx.tier, **c,
+            reserved = ("property", "kind", "seed", "tier", "broken")
+            body = {(("case_" + k) if k in reserved else k): v for k, v in c.items()}  # an oracle may use these names itself
+            write_json(path, dict(property=pid, kind="counterexample", seed=ctx.seed, tier=ctx.tier, **body,
                                   broken=broken[:10]))
             lines.append(f"VIOLATION property={pid} replay={path}")
     elif broken:
